@@ -33,6 +33,12 @@ func specialTexts() []Text {
 		"same-comment-top":        "// note\noptions {\n    // note\n    LittleEndian = true; // note\n    StringPrefixLenType = u8; // note\n}\n// note\npacket P {\n    u16 a,\n}\n",
 		"comment-markers-inside":  "packet P { // a // b /// c\n    u16 a, //\n    u16 b, ////\n}\n",
 		"tabs-in-comment":         "packet P {\n    u16 a, //\ttabbed\tcomment  with  spaces   \n}\n",
+		// string keys that contain the language's own punctuation, alone and inside key lists (a routine that re-splits
+		// or re-joins the text of a list instead of walking its tokens cuts them)
+		"string-keys-syntax-chars-single": "packet P {\n    string k,\n    match k as b {\n        \"A,B\" : Q,\n        \"p:q\" : R,\n        \"[z]\" : Q,\n        \"{x}; y\" : R,\n        \" lead\" : Q,\n        \"// c\" : R,\n    },\n}\npacket Q {\n}\npacket R {\n}\n",
+		"string-keys-syntax-chars-lists":  "packet P {\n    string k,\n    match k as b {\n        [\"X,Y\", \"p:q\", \"[z]\"] : R,\n        [\"a,1\", \"b, 2\", \"c ,3\", \"d;4\", \"e{5}\", \"f]6\", \"g\\\"7\"] : Q,\n        [\",\"] : R,\n        [\"//\", \"`\"] : Q,\n    },\n}\npacket Q {\n}\npacket R {\n}\n",
+		// free text in a legacy multi-byte encoding (GBK, Latin-1): runs of two and more bytes that are not UTF-8
+		"non-utf8-runs": "// \xd6\xd0\xce\xc4\xd7\xa2\xca\xcd caf\xe9\xe8\npacket P {\n    u16 a `\xcb\xb5\xc3\xf7 \xff\xfe`, // \xce\xb2\xd7\xa2\n    string k,\n    match k as b {\n        \"\xbc\xfc\xbc\xfc\" : Q,\n    },\n}\npacket Q {\n}\n",
 		"doc-with-comment-marker": "packet P {\n    u16 a `// not a comment`,\n    u16 b `ends with slash /`,\n}\n",
 	}
 	// a line longer than the 64 KiB a line-oriented reader buffers by default, with declarations after it
